@@ -56,6 +56,9 @@ func c04Schema(goPkg string) *Schema {
 	addMessage(f, message("Flat", field("id", "string"),
 		withOpt(withOpt(msgField("inner", ".r.v1.Leaf"), "sebuf.http.flatten", true), "sebuf.http.flatten_prefix", "in_"),
 		withOpt(msgField("bare", ".r.v1.Other"), "sebuf.http.flatten", true)))
+	// a flattened child with a field whose JSON name is the flattened field's own JSON name
+	addMessage(f, message("Email", field("email", "string"), field("verified", "bool")))
+	addMessage(f, message("Contact", field("name", "string"), withOpt(msgField("email", ".r.v1.Email"), "sebuf.http.flatten", true)))
 	mkChoice := func(name string, flatten bool) M {
 		m := message(name, field("id", "string"),
 			M{"name": "leaf", "type": "TYPE_MESSAGE", "type_name": ".r.v1.Leaf", "label": "LABEL_OPTIONAL", "json_name": "leaf", "oneof_index": 0},
@@ -212,6 +215,11 @@ func TestC04Family(t *testing.T) {
 	same("flatten", "one-set", &Flat{Id: "i", Bare: &Other{T: "t"}}, ff)
 	same("flatten", "none-set", &Flat{Id: "i"}, ff)
 	canon("flatten", "promoted", ` + "`" + `{"id":"i","in_s":"a","in_n":3,"t":"t","big":"9007199254740993"}` + "`" + `, &Flat{Id: "i", Inner: &Leaf{S: "a", N: 3}, Bare: &Other{T: "t", Big: 1<<53 + 1}}, ff)
+
+	fct := func() proto.Message { return &Contact{} }
+	same("flatten", "child-key-equals-field-name", &Contact{Name: "Ann", Email: &Email{Email: "ann@example.com", Verified: true}}, fct)
+	same("flatten", "child-key-equals-field-name-partial", &Contact{Name: "Ann", Email: &Email{Email: "ann@example.com"}}, fct)
+	canon("flatten", "child-key-equals-field-name", ` + "`" + `{"name":"Ann","email":"ann@example.com","verified":true}` + "`" + `, &Contact{Name: "Ann", Email: &Email{Email: "ann@example.com", Verified: true}}, fct)
 
 	// ---- oneof discriminator ----
 	fc := func() proto.Message { return &Choice{} }
